@@ -244,6 +244,8 @@ def gen_scenario(rng, sid, pf):
                 p["slice"] = rng.random() < 0.4
             if rng.random() < pf.p_pointqual:
                 p["quals"] = rng.sample(QUALS, rng.randint(1, 2))
+            if p["sel"][0] == "type" and p["target"][0] != "other" and rng.random() < pf.p_name_placeholder * 0.6:
+                p["via_empty"] = True
             if p["required"] and rng.random() < pf.p_reqspell:
                 p["reqspell"] = rng.choice(["", "=true", "=True", "=1", "=yes", "=FALSE", "=no"])
             (func if kind == "func" else wire).append(p)
@@ -485,6 +487,8 @@ def tag_of(p, key=None):
             args = ",returns=" + " ".join(sel[2]) + args
         return 'func:"%s%s"' % (sel[1], args)
     val = sel[1] if sel[0] == "name" else ""
+    if sel[0] == "type" and p.get("via_empty") and key:
+        val = "${%s_absent:}" % key     # a name taken from configuration that resolves to nothing: the point is filled by type
     if sel[0] == "name" and p.get("via") and key and val:
         # the name comes from configuration: whole value, default of an absent key, or a part of the name
         if p["via"] == "cfg":
